@@ -303,8 +303,12 @@ func (g *vC10Gen) script(id uint16, inline bool) *vC10Script {
 func (g *vC10Gen) packet(id uint16) []byte {
 	n := 12 + g.r.Intn(30)
 	b := make([]byte, n)
+	fill := byte(g.r.Intn(256))
 	for i := 12; i < n; i++ {
-		b[i] = byte(g.r.Intn(256))
+		b[i] = fill
+		if g.r.Intn(6) == 0 {
+			b[i] = byte(g.r.Intn(256))
+		}
 	}
 	b[0], b[1] = byte(id>>8), byte(id)
 	b[2] = byte(g.r.Intn(2)) // RD
@@ -433,6 +437,34 @@ func TestVerifC10Seq(t *testing.T) {
 	}
 	var lines []*pending
 	rbuf := make([]byte, 65536)
+	// Finished cases are written once they are too old to be hit by a straggler;
+	// behind them sits a sentinel for the case in progress, rewritten after every
+	// operation and replaced by the real line when the case completes. An engine
+	// panic on a goroutine the driver cannot recover (the overflow goroutine)
+	// kills the process and leaves the sentinel: a Go-side oracle failure with
+	// the operations that led there.
+	var off int64
+	flush := func(keep int) {
+		_ = f.Truncate(off)
+		_, _ = f.Seek(off, 0)
+		for len(lines) > keep {
+			b, _ := json.Marshal(lines[0].line)
+			n, _ := f.Write(append(b, '\n'))
+			off += int64(n)
+			lines = lines[1:]
+		}
+	}
+	sentinel := func(c *vC10SeqCase, capN, qcap, workers int, batchtx bool) {
+		_ = f.Truncate(off)
+		_, _ = f.Seek(off, 0)
+		b, _ := json.Marshal(map[string]any{
+			"k":          "udp-seq-died",
+			"nontrivial": true,
+			"go_fail":    "the process died inside this case: an engine panic on a goroutine nothing recovers",
+			"desc":       map[string]any{"slabCap": capN, "queue": qcap, "workers": workers, "batchtx": batchtx, "inline": c.inlineOn, "ops_so_far": c.ops},
+		})
+		_, _ = f.Write(append(b, '\n'))
+	}
 
 	for cn := 0; cn < n; cn++ {
 		r := g.r
@@ -465,7 +497,9 @@ func TestVerifC10Seq(t *testing.T) {
 		if shape == 0 {
 			nops = 90
 		}
+		flush(4)
 		for op := 0; op < nops && c.panicked == ""; op++ {
+			sentinel(c, capN, qcap, workers, batchtx)
 			k := r.Intn(100)
 			if shape == 0 {
 				// takes, then receives, then work: drives a burst to its bound
@@ -708,8 +742,5 @@ func TestVerifC10Seq(t *testing.T) {
 		lines = append(lines, &pending{line: line, lo: c.idLo, hi: idHi})
 		// leave no slab of this engine referenced by a later case: fresh engine each time
 	}
-	for _, p := range lines {
-		b, _ := json.Marshal(p.line)
-		f.Write(append(b, '\n'))
-	}
+	flush(0)
 }
